@@ -61,19 +61,40 @@ def wave_vectors(nvec, L):
     return q, np.sqrt((q * q).sum(axis=1))
 
 
+def frame_labels(types, T):
+    """`types` is either one label array (the same labels in every frame) or a sequence of T label arrays (one per
+    frame: swap Monte Carlo / `fix atom/swap` trajectories).  Returns a list of T integer arrays.  The composition
+    (number of particles of every species) must be the same in all frames: that is the documented precondition under
+    which N_a is a property of the trajectory."""
+    if isinstance(types, (list, tuple)) or (isinstance(types, np.ndarray) and types.ndim == 2):
+        tl = [np.asarray(t).astype(np.int64) for t in types]
+        if len(tl) != T:
+            raise ValueError(f"{len(tl)} label arrays for {T} frames")
+    else:
+        tl = [np.asarray(types).astype(np.int64)] * T
+    K = int(tl[0].max())
+    c0 = np.bincount(tl[0], minlength=K + 1)
+    for t in tl[1:]:
+        if t.shape != tl[0].shape or not np.array_equal(np.bincount(t, minlength=K + 1), c0):
+            raise ValueError("composition differs between frames")
+    return tl
+
+
 def per_vector(frames, types, nvec, L):
     """Per supplied wave vector (row order of nvec): dict column -> array(M), frame averaged, unrounded.
-    Keys: 'q', 'Sq', and 'Sqab' for all 1 <= a <= b <= K (every K, also > 5)."""
-    types = np.asarray(types)
+    Keys: 'q', 'Sq', and 'Sqab' for all 1 <= a <= b <= K (every K, also > 5).
+    `types`: one label array or one per frame (see frame_labels); species a of frame k are the particles
+    labelled a IN FRAME k."""
+    labels = frame_labels(types, len(frames))
     q, qn = wave_vectors(nvec, L)
-    K = int(types.max())
-    counts = np.array([(types == a).sum() for a in range(1, K + 1)], dtype=float)
-    N = float(len(types))
+    K = int(labels[0].max())
+    counts = np.array([(labels[0] == a).sum() for a in range(1, K + 1)], dtype=float)
+    N = float(len(labels[0]))
     M = len(qn)
-    sel = np.stack([(types == a) for a in range(1, K + 1)]).astype(float)  # (K, N)
     acc_tot = np.zeros(M)
     acc = np.zeros((K, K, M))
-    for pos in frames:
+    for pos, lab in zip(frames, labels):
+        sel = np.stack([(lab == a) for a in range(1, K + 1)]).astype(float)  # (K, N), this frame's labels
         phase = np.asarray(pos, dtype=float) @ q.T  # (N, M)
         e = np.cos(phase) - 1j * np.sin(phase)
         rho_a = sel @ e  # (K, M)
